@@ -149,6 +149,26 @@ theorem C08_fromHoy_grid (leap : Bool) (m : Int) : fromHoyTimes60 leap (m : Rat)
   have h1 : (0 : Rat) < 1 / 2 := by decide +kernel
   simp [Rat.floor_intCast, h0, h1]
 
+/-- Python's `round` returns an integer within one half of its argument. -/
+theorem round_near (x : Rat) :
+    ((Py.round x : Int) : Rat) - x ≤ 1 / 2 ∧ x - ((Py.round x : Int) : Rat) ≤ 1 / 2 := by
+  have h1 := Rat.floor_le x
+  have h2 := Rat.lt_floor_add_one x
+  unfold Py.round
+  simp only []
+  split
+  · constructor <;> grind
+  · split
+    · constructor <;> grind
+    · split <;> constructor <;> grind
+
+/-- Float hours at arbitrary resolution: `from_hoy(h)` is `from_moy` of a whole minute that lies
+    within half a minute of `60·h` (so it is the nearest minute; with `C08_fromMoy_moy` it reads
+    back as that minute). -/
+theorem C08_fromHoy_round (leap : Bool) (x : Rat) :
+    ∃ n : Int, fromHoyTimes60 leap x = fromMoy leap n ∧ (n : Rat) - x ≤ 1 / 2 ∧ x - (n : Rat) ≤ 1 / 2 :=
+  ⟨Py.round x, rfl, round_near x⟩
+
 /-! ### from_doy / doy -/
 
 /-- Every day of the year builds the valid date with that day of the year. -/
